@@ -316,3 +316,168 @@ func c17PrefixMatch(c *Ctx) {
 	}
 	r.Check(bad == "", "C17.prefixmatch", "C17.prefixmatch/(*prfbasedkeyderivation.parametersParser).Parse", p.FuncPos(f), bad, fmt.Sprintf("all %d pairs of distinct prefix types are refused", nPairs))
 }
+
+// ---------------------------------------------------------------- C12.lossless
+//
+// A key type's Parameters object is what Equal compares. Every scalar the
+// Parameters expose through a getter must be looked at by the serializers —
+// written into the proto, or pinned by a guard that refuses other values —
+// otherwise two different parameters serialise to the same bytes and
+// parse(serialize(p)) is not Equal to p. For each key package: every exported
+// niladic method of *Parameters with an integer/enum/bool result is called in
+// (or in a helper of the package reached from) parametersSerializer.Serialize
+// and keySerializer.SerializeKey.
+func c12Lossless(c *Ctx) {
+	p, r := c.P, c.R
+	n := 0
+	for _, path := range sortedPkgPaths(p) {
+		pk := p.ByPath[path]
+		if pk == nil || core.ClassOf(path) != core.Product {
+			continue
+		}
+		rel := core.Rel(path)
+		obj, _ := pk.Types.Scope().Lookup("Parameters").(*types.TypeName)
+		if obj == nil {
+			continue
+		}
+		named, _ := obj.Type().(*types.Named)
+		if named == nil {
+			continue
+		}
+		var sers []*ssa.Function
+		// only the parameters serializer: a key serializer may leave to the key material
+		// what the parser re-derives from it (key size from the key bytes, modulus size
+		// from the modulus)
+		for _, m := range methodsOf(p, rel, "parametersSerializer") {
+			if m.Name() == "Serialize" {
+				sers = append(sers, m)
+			}
+		}
+		if len(sers) == 0 {
+			continue
+		}
+		// getters of scalar state
+		ms := p.SSA.MethodSets.MethodSet(types.NewPointer(named))
+		for i := 0; i < ms.Len(); i++ {
+			m := ms.At(i).Obj().(*types.Func)
+			sig := m.Type().(*types.Signature)
+			if !m.Exported() || sig.Params().Len() != 0 || sig.Results().Len() != 1 || m.Name() == "HasIDRequirement" {
+				continue
+			}
+			bt, isB := sig.Results().At(0).Type().Underlying().(*types.Basic)
+			if !isB || bt.Info()&(types.IsInteger|types.IsBoolean) == 0 {
+				continue
+			}
+			getter := p.SSA.MethodValue(ms.At(i))
+			if getter == nil {
+				continue
+			}
+			// only plain getters `return p.field`: a getter that recombines other state is not state
+			fieldIdx := -1
+			if len(getter.Blocks) == 1 {
+				for _, ins := range getter.Blocks[0].Instrs {
+					if ret, isR := ins.(*ssa.Return); isR && len(ret.Results) == 1 {
+						if u, isU := guard.Strip(ret.Results[0]).(*ssa.UnOp); isU && u.Op == token.MUL {
+							if fa, isFA := u.X.(*ssa.FieldAddr); isFA && guard.Strip(fa.X) == ssa.Value(getter.Params[0]) {
+								fieldIdx = fa.Field
+							}
+						}
+					}
+				}
+			}
+			if fieldIdx < 0 {
+				continue
+			}
+			for _, ser := range sers {
+				n++
+				used := false
+				seen := map[*ssa.Function]bool{}
+				var visit func(g *ssa.Function, depth int)
+				visit = func(g *ssa.Function, depth int) {
+					if g == nil || seen[g] || depth > 3 || g.Blocks == nil {
+						return
+					}
+					seen[g] = true
+					allInstrs(g, func(ins ssa.Instruction) {
+						// the field read directly
+						if fa, isFA := ins.(*ssa.FieldAddr); isFA && fa.Field == fieldIdx {
+							if pt, isP := fa.X.Type().Underlying().(*types.Pointer); isP && types.Identical(pt.Elem(), named) {
+								used = true
+							}
+						}
+						call, ok := ins.(*ssa.Call)
+						if !ok {
+							return
+						}
+						callee := call.Call.StaticCallee()
+						if callee == getter {
+							used = true
+						}
+						// another method of Parameters that reads the field (HasIDRequirement from variant, …)
+						if callee != nil && callee.Signature.Recv() != nil && core.NamedOf(callee.Signature.Recv().Type()) == named {
+							visit(callee, depth+1)
+						}
+						if callee != nil && callee.Pkg == ser.Pkg {
+							visit(callee, depth+1)
+						}
+					})
+				}
+				visit(ser, 0)
+				r.Check(used, "C12.lossless", fmt.Sprintf("C12.lossless/%s/%s", core.FuncID(ser), m.Name()), p.FuncPos(ser),
+					fmt.Sprintf("the serializer never looks at Parameters.%s(): parameters that differ only there serialise to the same bytes, so the parsed object is not Equal to the original (the parser can only guess the value)", m.Name()), "read by the serializer")
+			}
+		}
+	}
+	r.Counts["parameter_getters_x_serializers"] = n
+	r.Min("C12.lossless", 40)
+}
+
+// ---------------------------------------------------------------- C12.writeerr
+//
+// keyset.keysetMaterial returns nil when a key of the handle cannot be
+// serialised (it swallows the error). A cleartext writer that hands that value
+// to keyset.Writer.Write unchecked writes an empty keyset and reports success.
+// Every Writer.Write call in insecurecleartextkeyset / testkeyset whose
+// argument comes from KeysetMaterial is dominated by a non-nil test of it.
+func c12WriteErr(c *Ctx) {
+	p, r := c.P, c.R
+	n := 0
+	for _, rel := range []string{"insecurecleartextkeyset", "testkeyset"} {
+		for _, f := range pkgFuncs(p, rel) {
+			allInstrs(f, func(ins ssa.Instruction) {
+				call, ok := ins.(*ssa.Call)
+				if !ok || !call.Call.IsInvoke() || call.Call.Method.Name() != "Write" || len(call.Call.Args) != 1 {
+					return
+				}
+				if core.TypeID(call.Call.Value.Type()) != "keyset.Writer" {
+					return
+				}
+				arg := guard.Strip(call.Call.Args[0])
+				src, _ := guard.CallOf(arg)
+				if src == nil || !strings.Contains(strings.ToLower(guard.CalleeName(&src.Call)), "keysetmaterial") {
+					// the internal hook is called through a package-level function variable
+					if src == nil || src.Call.StaticCallee() != nil {
+						return
+					}
+				}
+				n++
+				good := false
+				for _, fct := range guard.InstrFacts(call) {
+					if bo, isB := fct.Cond.(*ssa.BinOp); isB {
+						for _, pr := range [][2]ssa.Value{{bo.X, bo.Y}, {bo.Y, bo.X}} {
+							if guard.Strip(pr[0]) == arg && guard.IsNilConst(pr[1]) {
+								if (bo.Op == token.NEQ && fct.True) || (bo.Op == token.EQL && !fct.True) {
+									good = true
+								}
+							}
+						}
+					}
+				}
+				r.Check(good, "C12.writeerr", fmt.Sprintf("C12.writeerr/%s", core.FuncID(f)), p.Pos(ins.Pos()),
+					"the keyset material (nil when a key cannot be serialised) is handed to the writer unchecked: an empty keyset is written and success reported", "dominated by a non-nil test of the keyset material")
+			})
+		}
+	}
+	r.Counts["cleartext_writer_calls"] = n
+	r.Min("C12.writeerr", 2)
+}
